@@ -8,7 +8,15 @@ Inductive case :=
   | CWorst (pts : list (float * float)) (ks : list nat) (out out2 : option (list nat))
   (* F = filter_corner_knees(points, ks, t), S = select_corner_knees(points, ks, t),
      F2 = filter_corner_knees(points, F, t), S2 = select_corner_knees(points, S, t) *)
-  | CCorner (pts : list (float * float)) (ks : list nat) (t : float) (oF oS oF2 oS2 : option (list nat)).
+  | CCorner (pts : list (float * float)) (ks : list nat) (t : float) (oF oS oF2 oS2 : option (list nat))
+  (* same-object stream: ONE points buffer and ONE knees array served a sequence of calls, the buffer being refilled in
+     place between some of them; each step records the contents the buffer had for that call (from a separate fresh copy)
+     and what the call returned; intact = after every call both arguments still held exactly those contents *)
+  | CSeq (steps : list seqstep) (intact : bool)
+with seqstep :=
+  | SWorst (pts : list (float * float)) (ks : list nat) (out : option (list nat))
+  | SFilter (pts : list (float * float)) (ks : list nat) (t : float) (out : option (list nat))
+  | SSelect (pts : list (float * float)) (ks : list nat) (t : float) (out : option (list nat)).
 
 Definition opt_list_eqb (a b : option (list nat)) : bool :=
   match a, b with
@@ -21,12 +29,36 @@ Definition pts_ok (pts : list (float * float)) : bool :=
 Definition knees_ok (n : nat) (ks : list nat) : bool :=
   strictly_increasing ks && forallb (fun k => k <? n) ks.
 
+Definition step_dom (s : seqstep) : bool :=
+  match s with
+  | SWorst pts ks _ => pts_ok pts && knees_ok (length pts) ks
+  | SFilter pts ks t _ | SSelect pts ks t _ => pts_ok pts && knees_ok (length pts) ks && negb (f_isnan t)
+  end.
+Definition step_agree (s : seqstep) : bool :=
+  match s with
+  | SWorst pts ks out => opt_list_eqb (Some (@filter_worst FloatNum pts ks)) out
+  | SFilter pts ks t out => opt_list_eqb (Some (@filter_corner FloatNum pts ks t)) out
+  | SSelect pts ks t out => opt_list_eqb (Some (@select_corner FloatNum pts ks t)) out
+  end.
+Definition step_ran (s : seqstep) : bool :=
+  match s with SWorst _ _ None | SFilter _ _ _ None | SSelect _ _ _ None => false | _ => true end.
+(* the Tier S per-call predicates: C13_worst_is_running_min, C13_corner_call_rules *)
+Definition step_holds (s : seqstep) : bool :=
+  match s with
+  | SWorst pts ks (Some o) => nat_list_eqb o (@running_min_spec FloatNum (@height FloatNum pts) ks)
+  | SFilter pts ks t (Some o) => @filter_rule_holdsb FloatNum pts ks t o
+  | SSelect pts ks t (Some o) => @select_rule_holdsb FloatNum pts ks t o
+  | _ => false
+  end.
+
 (* result code = 100 * agree + holds.
    agree: 0 model outputs = implementation outputs, 1 differ, 6 outside the domain (NaN coordinate / threshold / IoU,
           knee list not strictly ascending or out of range)
    holds (on the IMPLEMENTATION's outputs):
      CWorst  1 output is not the greedy running-minimum subsequence, 2 not idempotent
-     CCorner 1 exception, 2 sublist / partition / decision rule false, 3 filter not idempotent, 4 selector not idempotent *)
+     CCorner 1 exception, 2 sublist / partition / decision rule false, 3 filter not idempotent, 4 selector not idempotent
+     CSeq    1 exception in some call, 2 some call's output breaks its rule (for the contents the buffer had at that call),
+             3 an argument was rewritten in place by a call *)
 Definition judge (c : case) : Z :=
   match c with
   | CWorst pts ks out out2 =>
@@ -57,6 +89,13 @@ Definition judge (c : case) : Z :=
                | _, _, _, _ => 1%Z
                end in
       (100 * a + h)%Z
+  | CSeq steps intact =>
+      let a := if forallb step_agree steps then 0%Z else 1%Z in
+      if negb (forallb step_dom steps) then (600 + a)%Z else
+      let h := if negb (forallb step_ran steps) then 1%Z
+               else if negb (forallb step_holds steps) then 2%Z
+               else if negb intact then 3%Z else 0%Z in
+      (100 * a + h)%Z
   end.
 
 Definition show (c : case) : list (list nat) * list float :=
@@ -64,4 +103,10 @@ Definition show (c : case) : list (list nat) * list float :=
   | CWorst pts ks out out2 => ([@filter_worst FloatNum pts ks; @running_min_spec FloatNum (@height FloatNum pts) ks], [])
   | CCorner pts ks t oF oS oF2 oS2 =>
       ([@filter_corner FloatNum pts ks t; @select_corner FloatNum pts ks t], map (@corner_iou FloatNum pts) ks)
+  | CSeq steps intact =>
+      (map (fun s => match s with
+                     | SWorst pts ks _ => @filter_worst FloatNum pts ks
+                     | SFilter pts ks t _ => @filter_corner FloatNum pts ks t
+                     | SSelect pts ks t _ => @select_corner FloatNum pts ks t
+                     end) steps, [])
   end.
